@@ -181,7 +181,8 @@ fn build(ws: &Workspace, chunk: usize, workers: usize, sched: &str, want: &Optio
     let mut order = wsutil::enumeration_order(&pm, ws);
     if let Some(w) = want {
         let mut tries = 0;
-        while &order != w && tries < 20000 {
+        // (a wanted order over another number of files than were indexed can never show up)
+        while &order != w && w.len() == order.len() && tries < 20000 {
             pm = wsutil::new_manager(ws, HLogger::silent());
             pm.index_files();
             order = wsutil::enumeration_order(&pm, ws);
@@ -298,8 +299,9 @@ fn item_ranges(i: &TypeHierarchyItem) -> &'static str {
     if !le(&i.range.start, &i.selection_range.start) || !le(&i.selection_range.end, &i.range.end) {
         return "!selection-outside-range";
     }
-    let text = i.uri.to_file_path().ok().and_then(|p| std::fs::read_to_string(p).ok()).unwrap_or_default();
-    let lines: Vec<&str> = text.split('\n').collect();
+    // the document as the server reads it (bytes + lossy conversion; a CR belongs to the line end)
+    let text = i.uri.to_file_path().ok().map(|p| wsutil::read_lossy(&p)).unwrap_or_default();
+    let lines: Vec<&str> = text.split('\n').map(|l| l.strip_suffix('\r').unwrap_or(l)).collect();
     let inside = |p: &lsp_types::Position| match lines.get(p.line as usize) {
         Some(l) => (p.character as usize) <= l.encode_utf16().count(),
         None => false,
@@ -320,7 +322,7 @@ fn item_owner(i: &TypeHierarchyItem, member: bool) -> String {
     if stem.to_uppercase() != owner.to_uppercase() {
         return format!("!uri-names-{}", stem);
     }
-    let text = path.and_then(|p| std::fs::read_to_string(p).ok()).unwrap_or_default();
+    let text = path.map(|p| wsutil::read_lossy(&p)).unwrap_or_default();
     let sel = &i.selection_range;
     let at: Option<String> = text.split('\n').nth(sel.start.line as usize).and_then(|l| {
         if sel.start.line != sel.end.line {
